@@ -261,6 +261,47 @@ func (e *Engine) registerLeak() {
 	in["leakcheck:(*log.Logger).Println"] = argSink("log", 1)
 	in["leakcheck:(*log.Logger).Print"] = argSink("log", 1)
 	in["leakcheck:(*log.Logger).Output"] = argSink("logoutput", 2)
+	// formatting a time value (local time zone: file system access) is an uninterpreted function of the time
+	timeFmt := func(r *Run, fr *Frame, cc *ssa.CallCommon, a []Value) Value {
+		var sig string
+		var ts []*Term
+		r.flatten(a[0], &sig, &ts)
+		return &StrV{opaque: UF(fmt.Sprintf("timefmt_%08x", fnvs(sig)), 64, ts...)}
+	}
+	in["leakcheck:(time.Time).Format"] = timeFmt
+	in["leakcheck:(time.Time).String"] = timeFmt
+	// string functions applied to an opaque (formatted) string give an opaque string that depends on the same data
+	for _, name := range []string{"TrimSpace", "TrimRight", "TrimLeft", "Trim", "TrimSuffix", "TrimPrefix", "ToLower", "ToUpper", "Replace", "ReplaceAll", "Repeat", "Title"} {
+		name := name
+		full := "strings." + name
+		in["leakcheck:"+full] = func(r *Run, fr *Frame, cc *ssa.CallCommon, a []Value) Value {
+			opaque := false
+			var ts []*Term
+			uf := "strfn_" + name
+			for _, v := range a {
+				switch x := v.(type) {
+				case *StrV:
+					if x.opaque != nil {
+						opaque = true
+					}
+					t := strTerm(x)
+					uf += fmt.Sprintf("_w%d", t.w)
+					ts = append(ts, t)
+				case *Term:
+					t := x
+					if t.w == 0 {
+						t = BoolToBV(t, 1)
+					}
+					uf += fmt.Sprintf("_w%d", t.w)
+					ts = append(ts, t)
+				}
+			}
+			if !opaque {
+				return r.callReal(fr, r.eng.prog.ImportedPackage("strings").Func(name), a, lbl(full))
+			}
+			return &StrV{opaque: UF(uf, 64, ts...)}
+		}
+	}
 	enc := in["(*encoding/gob.Encoder).Encode"]
 	in["leakcheck:(*encoding/gob.Encoder).Encode"] = func(r *Run, fr *Frame, cc *ssa.CallCommon, a []Value) Value {
 		r.leakCheck("gob-by-"+where(fr), r.sinkTerms(fr, a[1]))
